@@ -141,7 +141,7 @@ def run(prop, tier=None, replay=None):
         if tier != "quick":
             jobs.append(dict(name="free2", src=free, free=True, analyze=not bool(i % 2)))
         cases.append({"id": i, "jobs": jobs, "prog": p})
-    res = pmap(observe, [{"id": c["id"], "jobs": c["jobs"]} for c in cases], timeout=120)
+    res = pmap(observe, [{"id": c["id"], "jobs": c["jobs"]} for c in cases], timeout=120, batch=16)
     chk.phase("observe")
     D = session.Digests()
     events = []
